@@ -4,10 +4,10 @@ import json, os
 V = os.path.dirname(os.path.dirname(os.path.abspath(__file__)))
 TRUST = "trusted: Coq 8.16.1 kernel, tools/gen_tables.py, extraction (ExtrOcamlBasic only) + OCaml drivers, C/Python harnesses, sanitizers; models are hand-written and tied to the code by generated tables and the correspondence run"
 CHECKS = {
- "C01": ("proof", "Coq theorems on the loader model: COMPLETENESS (C01_complete: the canonical serialisation of every well-formed abstract message, followed by any bytes, is framed, validated and queued exactly; C01_value_complete_partial / C01_body_complete_partial: the model of validate_body_helper accepts every encoded well-formed value incl. the fixed-array fast path), framing (termination, conservation of bytes, accepted => validated, message = announced prefix, size limits); SOUNDNESS (C01_sound, C01_sound_decodes, C01_value_sound: whatever the loader model accepts is the canonical serialisation of an abstract message that the specification decoder returns, well-formed except in exactly the three recorded classes F2, F11, FD65, each refuted by a witness); the tie of the C loader to the model and memory safety of the C code are decided by correspondence: implementation, extracted model and the extracted specification decoder run on every generated case (structured valid messages, every single-byte corruption at every offset, boundary cases) incl. accessor dumps, under ASan/UBSan",
-         "Coq proof (loader completeness against the spec encoder + framing) + differential correspondence with the extracted specification decoder as oracle"),
- "C02": ("proof", "model of construction = abstract message (Wire.HeaderEdit.build) + the specification encoder; Coq theorems: the encoder/decoder ROUND TRIP at value and body level for every byte order, position and nesting (C02_value_roundtrip, C02_body_roundtrip: numbers, strings, arrays, structs, dict entries, variants), plus the abstract laws (signature field, byte-order conversion changes no value and is involutive, copy = equal message with serial 0); and at MESSAGE level (C02_roundtrip: spec decoder of the canonical serialisation of any well-formed abstract message = that message, either byte order, any field order); the DBusTypeWriter is tied to the encoder per generated program: implementation bytes = extracted spec encoder bytes, spec decoder accepts them with identical re-encoding, reparse dump identical, re-marshal byte-identical, other-byte-order encoding read back through the iterator; the signature print/parse premises inside wf_msg are discharged for all well-formed types (C02_variant_wellformed, C16_signature_print_parse)",
-         "Coq proof (abstract laws) + byte-exact differential against the extracted specification encoder/decoder"),
+ "C01": ("proof", "Coq theorems on the loader model: COMPLETENESS (C01_complete: the canonical serialisation of every well-formed abstract message, followed by any bytes, is framed, validated and queued exactly; C01_value_complete_partial / C01_body_complete_partial: the model of validate_body_helper accepts every encoded well-formed value incl. the fixed-array fast path), framing (termination, conservation of bytes, accepted => validated, message = announced prefix, size limits); CHARACTERISATION (C01_characterisation: for a framed buffer the loader model accepts EXACTLY the canonical encodings of loosely well-formed messages, wf_msg_x = wf_msg with the three recorded deviations built in, C01_wellformed_iff; C01_loader_vs_decoder: both directions against the independent specification decoder; C01_decoder_iff: that decoder accepts exactly the encodings of well-formed messages), no wire-level side premises remain (Proofs/WireClean*.v); SOUNDNESS (C01_sound, C01_sound_decodes, C01_value_sound: whatever the loader model accepts is the canonical serialisation of an abstract message that the specification decoder returns, well-formed except in exactly the three recorded classes F2, F11, FD65, each refuted by a witness); the tie of the C loader to the model and memory safety of the C code are decided by correspondence: implementation, extracted model and the extracted specification decoder run on every generated case (structured valid messages, every single-byte corruption at every offset, boundary cases) incl. accessor dumps, under ASan/UBSan",
+         "Coq proof (loader model accepts exactly the canonical encodings: completeness, soundness, characterisation iff; framing) + differential correspondence with the extracted specification decoder as oracle"),
+ "C02": ("proof", "model of construction = abstract message (Wire.HeaderEdit.build) + the specification encoder; Coq theorems: the encoder/decoder ROUND TRIP at value and body level for every byte order, position and nesting (C02_value_roundtrip, C02_body_roundtrip: numbers, strings, arrays, structs, dict entries, variants) and its CONVERSE (C02_value_decode_encode, C02_body_decode_encode, C02_message_decode_encode: whatever the decoder returns re-encodes to exactly the consumed bytes and is well formed, so encode/decode are mutually inverse bijections), plus the abstract laws (signature field, byte-order conversion changes no value and is involutive, copy = equal message with serial 0); and at MESSAGE level (C02_roundtrip: spec decoder of the canonical serialisation of any well-formed abstract message = that message, either byte order, any field order); the DBusTypeWriter is tied to the encoder per generated program: implementation bytes = extracted spec encoder bytes, spec decoder accepts them with identical re-encoding, reparse dump identical, re-marshal byte-identical, other-byte-order encoding read back through the iterator; the signature print/parse premises inside wf_msg are discharged for all well-formed types (C02_variant_wellformed, C16_signature_print_parse)",
+         "Coq proof (round trip in both directions at value, body and message level; abstract laws) + byte-exact differential against the extracted specification encoder/decoder"),
  "C12": ("proof", "Coq theorems on the abstract header editor (read-back, deletion, all other fields keep value/presence/relative order, strip removes exactly the unknown fields, flags/serial/type/signature/body untouched for every edit sequence) and on re-serialisation (C12_fields_reserialise: the encoded field array of any well-formed field list decodes back to exactly that list); the byte-level C code is tied to the model by comparing the serialised bytes after every edit on generated messages in both byte orders with shuffled and unknown fields; and C12_wellformed: the re-serialisation of any well-formed edited message decodes to exactly that message",
          "Coq proof (editor laws) + byte-exact differential after every edit"),
  "C11": ("proof", "Coq theorem, unconditional (C11_chunking): for every stream and every partition the loader model produces the same messages and the same corruption verdict as for the unsplit stream; it rests on the proved locality of load_message on complete messages (C11_load_message_local, from locality lemmas for the whole body-validator model); also: framing reads only the fixed header, nothing after corruption, conservation of bytes; the C loader and the socket transport (handshake boundary) are tied by running every case chunked and unsplit",
